@@ -2,6 +2,7 @@
 From Coq Require Import List NArith Bool.
 Import ListNotations.
 From L4 Require Import Common.FSModel Model.Window Model.Subst Proofs.Window Proofs.Subst.
+From L4 Require Model.PathExt Proofs.PathExt.
 
 (* After any number n of rolls (contents f1..fn, each written to `file` and rolled),
    whatever the directory held initially (old archives, gaps, bystanders):
@@ -108,6 +109,44 @@ Theorem C07_pattern_names_injective :
     contains_braces pat = true -> names_injective (archive_name [] pat) b c.
 Proof. exact pattern_names_injective. Qed.
 Print Assumptions C07_pattern_names_injective.
+
+(* ---- which compression the builder chooses: std's Path::extension of the pattern text
+   (Model/PathExt.v; used by the run driver, so the generator's own idea of it is not trusted) ---- *)
+Module PX := L4.Model.PathExt.
+Module PXP := L4.Proofs.PathExt.
+
+(* extension = what follows the LAST dot of the file name, provided something precedes that dot *)
+Theorem C07_extension_meaning :
+  forall (s e : PX.bytes),
+    PX.extension s = Some e <->
+    exists stem, PX.file_name s = Some (stem ++ 46%N :: e) /\ stem <> [] /\ ~ In 46%N e.
+Proof. exact PXP.extension_some. Qed.
+Print Assumptions C07_extension_meaning.
+
+(* archives are compressed exactly for file names  <non-empty stem>.gz  /  <non-empty stem>.zst *)
+Theorem C07_compressed_iff :
+  forall p : PX.bytes,
+    PX.compressed p = true <->
+    exists stem e, PX.file_name p = Some (stem ++ 46%N :: e) /\ stem <> [] /\ (e = PX.ext_gz \/ e = PX.ext_zst).
+Proof. exact PXP.compressed_iff. Qed.
+Print Assumptions C07_compressed_iff.
+
+(* a file name that is only ".gz" (any ".word"), or has no dot, means NO compression; the file
+   name of  <anything>/<name>  is <name> *)
+Theorem C07_dotfile_and_plain_names_are_not_compressed :
+  forall (d n : PX.bytes),
+    PXP.plain_name n ->
+    PX.file_name (d ++ 47%N :: n) = Some n /\ PX.file_name n = Some n /\
+    (forall e, n = 46%N :: e -> ~ In 46%N e -> PX.compressed (d ++ 47%N :: n) = false) /\
+    (~ In 46%N n -> PX.compressed (d ++ 47%N :: n) = false).
+Proof.
+  intros d n Hn.
+  pose proof (PXP.file_name_last_component d n Hn) as Hf.
+  split; [exact Hf|]. split; [exact (PXP.file_name_bare n Hn)|]. split.
+  - intros e -> He. unfold PX.compressed. rewrite (PXP.dotfile_has_no_extension _ e Hf He). reflexivity.
+  - intros Hd. unfold PX.compressed. rewrite (PXP.no_dot_no_extension _ n Hf Hd). reflexivity.
+Qed.
+Print Assumptions C07_dotfile_and_plain_names_are_not_compressed.
 
 (* Non-vacuity: pattern "a.{}.log", base 1, count 3, an old archive at index 2, a gap
    at 1, a bystander; three rolls. *)
